@@ -431,6 +431,20 @@ def pattern_edits(qs, loc, g, out, max_module=0xFFFF):
         else:
             n.controller, n.effect, n.val_xx, n.val_yy = ctl >> 8, ctl & 0xFF, val >> 8, val & 0xFF
     out.append(Edit(f"{base}/cells", set_cell, cells, cls="pattern-cell"))
+    # one COLUMN of a cell edited: the module number of a blank cell is set; a cell is reduced to nothing but its module number
+    import struct as _struct
+    ln2, tr2 = rng.randrange(qs["lines"]), rng.randrange(qs["tracks"])
+    off2 = (ln2 * qs["tracks"] + tr2) * 8
+    old = _struct.unpack("<BBHHH", qs["cells"][off2:off2 + 8])
+    modnum = old[2] if old[2] else 1 + rng.randrange(min(max_module, 0xFFFF))
+    only_module = _struct.pack("<BBHHH", 0, 0, modnum, 0, 0)
+    if only_module != qs["cells"][off2:off2 + 8]:
+        def reduce_cell(root, ln=ln2, tr=tr2, k=modnum):
+            from rv.note import NOTECMD
+            n = nav(root, loc).data[ln][tr]
+            n.module = k
+            n.note, n.vel, n.ctl, n.val = NOTECMD(0), 0, 0, 0
+        out.append(Edit(f"{base}/cells", reduce_cell, qs["cells"][:off2] + only_module + qs["cells"][off2 + 8:], cls="pattern-cell-module-only"))
     # whole-pattern edits through the public methods
     if any(qs["cells"]):
         out.append(Edit(f"{base}/cells", (lambda root: nav(root, loc).clear()), bytes(len(qs["cells"])), cls="pattern-clear"))
